@@ -49,6 +49,7 @@ pub struct Rat {
     pub d: BigInt,
 }
 
+#[allow(dead_code)]
 impl Rat {
     pub fn new(n: BigInt, d: BigInt) -> Rat {
         assert!(!d.is_zero(), "zero denominator");
